@@ -1126,7 +1126,7 @@ func (g *cGraph) buildMem() {
 			// may go through it, so flow-sensitive reasoning about that object is off
 			if pv := g.res(CV{n.C, st.Val}); true {
 				if _, isPtr := pv.V.Type().Underlying().(*types.Pointer); isPtr {
-					if _, o, ok := g.memKey(pv); ok {
+					if _, o, ok := g.memKey(pv); ok && !g.transparentCell(g.res(CV{n.C, st.Addr})) {
 						g.addrKept[cvKey(o)] = true
 					}
 				}
@@ -1141,6 +1141,18 @@ func (g *cGraph) buildMem() {
 			g.regStore(g.res(CV{n.C, st.Addr}), CV{n.C, st.Val})
 		}
 	}
+}
+
+// transparentCell: addr is a local variable assigned exactly once whose address goes nowhere (a parameter or
+// local that go/ssa keeps in memory because a closure reads it): every read of it is resolved to the assigned
+// value, so a pointer kept there is still followed access by access.
+func (g *cGraph) transparentCell(addr CV) bool {
+	al, ok := addr.V.(*ssa.Alloc)
+	if !ok {
+		return false
+	}
+	_, ok = g.singleCellValue(addr, al)
+	return ok
 }
 
 func (g *cGraph) regStore(addr, val CV) {
